@@ -2000,19 +2000,21 @@ class t2data(object):
         self.grid.rename_blocks(blockmap, fix_blocknames = False)
 
         if self.incon:
+            renamed_incons = {}
             for k,v in blockmap.items():
                 if k in self.incon:
-                    inc = self.incon[k]
+                    renamed_incons[v] = self.incon[k]
                     del self.incon[k]
-                    self.incon[v] = inc
+            self.incon.update(renamed_incons)
 
+        renamed_generators = []
         for gen in self.generatorlist:
             if gen.block in blockmap:
                 keys = (gen.block, gen.name)
                 del self.generator[keys]
                 gen.block = blockmap[gen.block]
-                newkeys = (gen.block, gen.name)
-                self.generator[newkeys] = gen
+                renamed_generators.append(gen)
+        for gen in renamed_generators: self.generator[(gen.block, gen.name)] = gen
 
         if self.parameter['print_block'] in blockmap:
             self.parameter['print_block'] = blockmap[self.parameter['print_block']]
